@@ -601,6 +601,18 @@ class Engine(ValueOps, ExprOps, CallOps, StmtOps):
         st.env = env
         try:
             for it in items:
+                if ' if ' in it:
+                    # guarded item `<item> if <condition>`: the callee changes it only when the condition holds
+                    it, _, guard = it.partition(' if ')
+                    g = self.spec_eval_bool(guard.strip())
+                    if g == FALSE:
+                        continue
+                    if g != TRUE:
+                        if st.decide(2, 'modifies-if') == 1:
+                            st.assume(mk_not(g), 'pc')
+                            continue
+                        st.assume(g, 'pc')
+                    it = it.strip()
                 if it == 'alloc':
                     self.havoc_heap(['alloc'])
                 elif it.startswith('ghost:'):
